@@ -923,6 +923,12 @@ class Interp:
                 return ('strcat', cur[1] | frozenset([v]))
             if cur[0] in ('union', 'comp', 'list', 'tuple') or cur == EMPTY:
                 return T.union(cur, v)
+        if opn == 'Sub' and v == ('const', 1):
+            # remaining = len(S); ...; remaining -= 1  -- a count-down from the size of a collection
+            if cur[0] == 'call' and cur[1] == 'len' and len(cur[2]) == 1:
+                return ('rem', cur)
+            if cur[0] == 'rem':
+                return cur
         if opn == 'BitOr' and (cur[0] in ('union', 'comp', 'set') or cur == EMPTY):
             return T.union(cur, v)
         return T.cap(('binop', opn, cur, v), name)
@@ -1160,7 +1166,7 @@ class Interp:
         v = None
         for k, new in back.vars.items():
             old = head.vars.get(k)
-            if old is None or old == new or new[0] in ('union', 'acc', 'strcat', 'unk'):
+            if old is None or old == new or new[0] in ('union', 'acc', 'strcat', 'unk', 'rem'):
                 continue
             if old[0] in ('var',) :
                 continue
@@ -2139,6 +2145,14 @@ class Interp:
             r = self.an.on_attr(self, e, b, e.attr, x, fr)
             if r is None and b[0] == 'new':
                 r = x.var(HEAP, (b, e.attr))      # what was stored in this fresh object
+            if r is None and isinstance(getattr(e, 'ctx', None), ast.Load):
+                r = self.class_const(e, b, fr)
+            if r is None and isinstance(getattr(e, 'ctx', None), ast.Load):
+                # a property of the class of `self` (or of a helper object): reading it runs its getter
+                pf = self.property_getter(e, b, fr)
+                if pf is not None:
+                    res += self.inline(pf, b, (), (), T.mk(('attr', b, e.attr)), x, fr, o, e)
+                    continue
             if r is not None:
                 res.append((x, r))
             elif b[0] == 'mod':
@@ -2146,6 +2160,65 @@ class Interp:
             else:
                 res.append((x, T.cap(('attr', b, e.attr), e.attr)))
         return res
+
+    def property_getter(self, e, b, fr):
+        cls = None
+        if b[0] == 'new' and isinstance(b[1], str) and b[1] in self.prog.classes:
+            cls = self.prog.classes[b[1]]
+        elif fr.func.cls is not None and fr.self_term is not None and b == fr.self_term:
+            cls = self.self_class(fr)
+        if cls is None or fr.depth >= self.an.max_inline:
+            return None
+        f = self.prog.supplier(cls, e.attr)
+        if f is None or f.is_async or f.is_generator or f.qualname in fr.stack or len(f.params) != 1:
+            return None
+        if not any((dotted(d) or '').split('.')[-1] in ('property', 'cached_property') for d in f.node.decorator_list):
+            return None
+        # (dispatch: the getter must be the same for every class `self` may be)
+        if b == fr.self_term and getattr(self, 'root_cls', None) is None and len(self.prog.dispatch_set(cls, e.attr)) > 1:
+            return None
+        return f
+
+    def class_const(self, e, b, fr):
+        """`self.X` / `cls.X` / `Class.X` where X is a constant of the class: bound once, in the class body, to a literal,
+        and never assigned through an instance anywhere in the package"""
+        cls = None
+        if b[0] == 'class' and b[1] in self.prog.classes:
+            cls = self.prog.classes[b[1]]
+        elif fr.func.cls is not None and (b == fr.self_term or (isinstance(e.value, ast.Name) and e.value.id in ('cls', 'self')
+                                                              and fr.func.params and e.value.id == fr.func.params[0])):
+            cls = self.self_class(fr)
+        if cls is None:
+            return None
+        cache = self.__dict__.setdefault('_cc', {})
+        key = (cls.name, e.attr)
+        if key not in cache:
+            val = None
+            for c in cls.mro:
+                defs = [n for n in c.node.body if isinstance(n, (ast.Assign, ast.AnnAssign)) and any(
+                    isinstance(t, ast.Name) and t.id == e.attr for t in (n.targets if isinstance(n, ast.Assign) else [n.target]))]
+                if defs:
+                    d = defs[-1]
+                    if len(defs) == 1 and isinstance(d.value, ast.Constant) and (
+                            d.value.value is None or isinstance(d.value.value, (bool, int, float, str))):
+                        val = ('const', d.value.value)
+                    break
+            if val is not None:
+                # overridden in a subclass, or stored through an instance somewhere: not a constant
+                for c2 in self.prog.classes.values():
+                    if c2 is not cls and cls in c2.mro and any(
+                            isinstance(n, (ast.Assign, ast.AnnAssign)) and any(isinstance(t, ast.Name) and t.id == e.attr
+                            for t in (n.targets if isinstance(n, ast.Assign) else [n.target])) for n in c2.node.body):
+                        val = None
+                for f in self.prog.funcs.values():
+                    if val is None:
+                        break
+                    for n in walk_local(f.node):
+                        if isinstance(n, ast.Attribute) and n.attr == e.attr and isinstance(n.ctx, (ast.Store, ast.Del)):
+                            val = None
+                            break
+            cache[key] = val
+        return cache[key]
 
     def e_Tuple(self, e, st, fr, o):
         kind = {'Tuple': 'tuple', 'List': 'list', 'Set': 'set'}[type(e).__name__]
@@ -2573,6 +2646,13 @@ class Interp:
                 if y is not None:
                     res += self.call(e, sub, args, kws, y, fr, o)
             return res
+        if fterm[0] == 'builtin' and fterm[1] == 'next' and len(args) == 2 and not kws and args[0][0] == 'gen':
+            # next(self._candidates(), default): the first thing the package generator yields, or the default
+            hits = []
+            scratch = Out()
+            ends = self.run_generator(args[0], st, fr, scratch, e, lambda y, val: (hits.append((y, val)), [])[1])
+            if ends is not None and not scratch.exc:
+                return hits + [(y, args[1]) for y in ends]
         if fterm[0] == 'builtin' and fterm[1] == 'next' and len(args) == 2 and not kws \
                 and args[0][0] == 'comp' and len(args[0]) == 4 and len(args[0][3]) == 1:
             # next((e(x) for x in S if c(x)), default): the first element that qualifies, or the default
